@@ -254,11 +254,12 @@ structure Inv (d : Dec) : Prop where
   size_eq : d.size = totalLen d.fragments
   empty   : d.size = 0 → d.fragments = []
   size_le : d.size ≤ maxAU
+  nonempty : ∀ f ∈ d.fragments, 0 < f.length
 
-theorem c08_inv_init (p : Params) : Inv { par := p } := ⟨rfl, fun _ => rfl, by simp⟩
+theorem c08_inv_init (p : Params) : Inv { par := p } := ⟨rfl, fun _ => rfl, by simp, by simp⟩
 
 theorem inv_of_clean (d : Dec) (h1 : d.size = 0) (h2 : d.fragments = []) : Inv d :=
-  ⟨by simp [h1, h2], fun _ => h2, by omega⟩
+  ⟨by simp [h1, h2], fun _ => h2, by omega, by simp [h2]⟩
 
 theorem removeADTS_state (d : Dec) (aus : List Bytes) :
     (removeADTS d aus).1.fragments = d.fragments ∧ (removeADTS d aus).1.size = d.size ∧
@@ -282,7 +283,7 @@ theorem readAUHeaders_bounds (p : Params) (buf : Bytes) (hl : Nat) (l : List Nat
 
 /-- **C08**: the invariant is preserved by `Decode` on EVERY packet. -/
 theorem c08_inv_decode (d : Dec) (q : Pkt) (hi : Inv d) : Inv (decode d q).1 := by
-  obtain ⟨h1, h2, h3⟩ := hi
+  obtain ⟨h1, h2, h3, h5⟩ := hi
   have hreset : ∀ d' : Dec, Inv d'.reset := fun d' => inv_of_clean _ rfl rfl
   have hrm : ∀ (d' : Dec) (aus : List Bytes), d'.size = 0 → d'.fragments = [] → Inv (removeADTS d' aus).1 := by
     intro d' aus hs hf
@@ -312,11 +313,14 @@ theorem c08_inv_decode (d : Dec) (q : Pkt) (hi : Inv d) : Inv (decode d q).1 := 
           · exact hreset d
           · rename_i hlen
             have := (hb dl (by simp)).2
-            refine ⟨?_, ?_, by simpa using this⟩
+            have hpos := (hb dl (by simp)).1
+            refine ⟨?_, ?_, by simpa using this, ?_⟩
             · simp only [Dec.reset, List.nil_append, totalLen_singleton, List.length_take]; omega
             · intro hz
-              have := (hb dl (by simp)).1
               simp only at hz; omega
+            · intro f hf
+              simp only [Dec.reset, List.nil_append, List.mem_singleton] at hf
+              subst hf; simp only [List.length_take]; omega
         | [], _ => exact hreset d
         | _ :: _ :: _, _ => exact hreset d
     · match dataLens, hb with
@@ -330,11 +334,16 @@ theorem c08_inv_decode (d : Dec) (q : Pkt) (hi : Inv d) : Inv (decode d q).1 := 
         · exact hreset d
         rename_i hlen _ hle
         split
-        · refine ⟨?_, ?_, by simp only; omega⟩
+        · have hpos := (hb dl (by simp)).1
+          refine ⟨?_, ?_, by simp only; omega, ?_⟩
           · simp only [totalLen_append, totalLen_singleton, List.length_take, h1]; omega
           · intro hz
-            have := (hb dl (by simp)).1
             simp only at hz; omega
+          · intro f hf
+            simp only [List.mem_append, List.mem_singleton] at hf
+            rcases hf with hf | hf
+            · exact h5 f hf
+            · subst hf; simp only [List.length_take]; omega
         · exact hrm _ _ rfl rfl
       | [], _ => exact hreset d
       | _ :: _ :: _, _ => exact hreset d
@@ -342,6 +351,20 @@ theorem c08_inv_decode (d : Dec) (q : Pkt) (hi : Inv d) : Inv (decode d q).1 := 
 /-- **C08 bounded memory**: retained bytes never exceed `MaxAccessUnitSize` (5 KiB). -/
 theorem c08_retained_le (d : Dec) (hi : Inv d) : retained d ≤ maxAU := by
   unfold retained; rw [← hi.size_eq]; exact hi.size_le
+
+/-- **C08 bounded memory, number of retained slices**: every retained fragment is non-empty, so the
+decoder never holds more slices than retained bytes. -/
+theorem c08_fragment_count_le (d : Dec) (hi : Inv d) : d.fragments.length ≤ retained d := by
+  unfold retained
+  have h := hi.nonempty
+  generalize d.fragments = fs at h
+  induction fs with
+  | nil => simp
+  | cons f rest ih =>
+    have := h f (by simp)
+    have := ih (fun x hx => h x (by simp [hx]))
+    simp only [List.length_cons, totalLen, List.map_cons, List.sum_cons] at this ⊢
+    omega
 
 theorem removeADTS_out (d : Dec) (aus out : List Bytes) (h : (removeADTS d aus).2 = .ok out)
     (hb : ∀ au ∈ aus, au.length ≤ maxAU) : ∀ au ∈ out, au.length ≤ maxAU := by
@@ -374,7 +397,7 @@ theorem removeADTS_out (d : Dec) (aus out : List Bytes) (h : (removeADTS d aus).
 /-- **C08 output bound**: every returned access unit is at most `MaxAccessUnitSize` long. -/
 theorem c08_out_le (d : Dec) (q : Pkt) (aus : List Bytes) (hi : Inv d)
     (h : (decode d q).2 = .ok aus) : ∀ au ∈ aus, au.length ≤ maxAU := by
-  obtain ⟨h1, h2, h3⟩ := hi
+  obtain ⟨h1, h2, h3, _⟩ := hi
   unfold decode at h
   split at h
   · simp at h
@@ -530,7 +553,8 @@ theorem run_rest (c : EncCfg) (ts : UInt32) (avail : Nat) (hav : 0 < avail) (k :
     (hfit : d.size + rest.length < 2 ^ d.par.sl) (hadts : d.adtsMode = false)
     (hsync : adtsSync (d.fragments.flatten ++ rest) = false) :
     ∃ d', runDec d (emitFrag c d.par ts avail (k + 1) sq rest)
-        = (d', List.replicate k .more ++ [.ok [d.fragments.flatten ++ rest]]) ∧ Clean d' ∧ d'.par = d.par := by
+        = (d', List.replicate k .more ++ [.ok [d.fragments.flatten ++ rest]]) ∧ Clean d' ∧ d'.par = d.par ∧
+          d'.firstAUParsed = true := by
   induction k generalizing sq rest d with
   | zero =>
     have hr : 0 < rest.length := by omega
@@ -543,7 +567,7 @@ theorem run_rest (c : EncCfg) (ts : UInt32) (avail : Nat) (hav : 0 < avail) (k :
     rw [removeADTS_valid { d with size := 0, fragments := [], nextSeq := d.nextSeq + 1 } _ hadts (by
       intro au hau; simp only [List.mem_singleton] at hau; subst hau; simpa using hsync)] at hd
     refine ⟨{ d with size := 0, fragments := [], nextSeq := d.nextSeq + 1, firstAUParsed := true }, ?_,
-      ⟨rfl, rfl, hadts⟩, rfl⟩
+      ⟨rfl, rfl, hadts⟩, rfl, rfl⟩
     simp only [emitFrag, runDec, runDecGen, hd, List.replicate_zero, List.nil_append]
     simp
   | succ k ih =>
@@ -556,14 +580,14 @@ theorem run_rest (c : EncCfg) (ts : UInt32) (avail : Nat) (hav : 0 < avail) (k :
                                payload := fragPayload d.par (rest.take avail) } (rest.take avail) hsl
       ⟨by omega, by omega, by omega⟩ h16 (fragPayload_eq _ _) hpos hseq.symm (by omega)
     simp only [Bool.not_false, ↓reduceIte] at hd
-    obtain ⟨d', hrun, hclean, hpar⟩ := ih (sq + 1) (rest.drop avail)
+    obtain ⟨d', hrun, hclean, hpar, hfp⟩ := ih (sq + 1) (rest.drop avail)
       { d with size := d.size + (rest.take avail).length, fragments := d.fragments ++ [rest.take avail],
                nextSeq := d.nextSeq + 1 }
       hsl h16 (by simp [hsz]) (by simp only; omega) (by simp [hseq])
       (by simp only [List.length_drop]; omega) (by simp only [htake, List.length_drop]; omega)
       (by simp only [htake, List.length_drop]; omega) hadts
       (by simpa [List.append_assoc] using hsync)
-    refine ⟨d', ?_, hclean, hpar⟩
+    refine ⟨d', ?_, hclean, hpar, hfp⟩
     simp only [emitFrag, runDec, runDecGen, hd] at hrun ⊢
     rw [hrun]
     simp [List.replicate_succ, List.append_assoc]
@@ -577,18 +601,19 @@ structure BatchValid (p : Params) (b : List Bytes) : Prop where
 /-- one batch, from a clean decoder: "more" for every fragment but the last, then the batch -/
 theorem run_batch (c : EncCfg) (p : Params) (hc : ValidCfg c p) (b : List Bytes) (hb : BatchValid p b)
     (ts : UInt32) (sq : UInt16) (d : Dec) (hd : Clean d) (hpar : d.par = p) :
-    ∃ d' n, runDec d (writeBatch c p b ts sq) = (d', List.replicate n .more ++ [.ok b]) ∧ Clean d' ∧ d'.par = p := by
+    ∃ d' n, runDec d (writeBatch c p b ts sq) = (d', List.replicate n .more ++ [.ok b]) ∧ Clean d' ∧ d'.par = p ∧
+      d'.firstAUParsed = true := by
   subst hpar
   obtain ⟨hz, hfr, hadts⟩ := hd
   have hmax := hc.max_ok
   have hsl : 1 ≤ d.par.sl := hc.sl_pos
   have agg : ∃ d' n, runDec d (writeAggregated c d.par b ts sq) = (d', List.replicate n .more ++ [.ok b]) ∧
-      Clean d' ∧ d'.par = d.par := by
+      Clean d' ∧ d'.par = d.par ∧ d'.firstAUParsed = true := by
     have hd := decode_agg d { pt := c.pt, seq := sq, ts := ts, ssrc := c.ssrc, marker := true,
                               payload := be16 (auHeaders d.par true b).length ++ pack (auHeaders d.par true b) ++ b.flatten }
       b hsl hb.ne (fun u hu => (hb.units u hu).1) hb.h16 rfl hz rfl
     rw [removeADTS_valid d.reset _ hadts (fun au hau => (hb.units au hau).2)] at hd
-    refine ⟨{ d.reset with firstAUParsed := true }, 0, ?_, ⟨rfl, rfl, hadts⟩, rfl⟩
+    refine ⟨{ d.reset with firstAUParsed := true }, 0, ?_, ⟨rfl, rfl, hadts⟩, rfl, rfl⟩
     simp only [writeAggregated, runDec, runDecGen, hd]
     simp
   unfold writeBatch
@@ -619,7 +644,7 @@ theorem run_batch (c : EncCfg) (p : Params) (hc : ValidCfg c p) (b : List Bytes)
           [au] hsl (by simp) (by intro u hu; simp at hu; subst hu; exact ⟨hau0, hau1, hau2⟩) h16
           (fragPayload_eq _ _) hz rfl
         rw [removeADTS_valid d.reset _ hadts (by intro x hx; simp at hx; subst hx; exact hausync)] at hd
-        refine ⟨{ d.reset with firstAUParsed := true }, 0, ?_, ⟨rfl, rfl, hadts⟩, rfl⟩
+        refine ⟨{ d.reset with firstAUParsed := true }, 0, ?_, ⟨rfl, rfl, hadts⟩, rfl, rfl⟩
         simp only [emitFrag, runDec, runDecGen, hd]
         simp
       | succ k =>
@@ -631,13 +656,13 @@ theorem run_batch (c : EncCfg) (p : Params) (hc : ValidCfg c p) (b : List Bytes)
         have hd := decode_first d { pt := c.pt, seq := sq, ts := ts, ssrc := c.ssrc, marker := false,
                                     payload := fragPayload d.par (au.take avail) }
           (au.take avail) hsl ⟨by omega, by omega, by omega⟩ h16 (fragPayload_eq _ _) hz rfl
-        obtain ⟨d', hrun, hclean, hpar'⟩ := run_rest c ts avail hpos k (sq + 1) (au.drop avail)
+        obtain ⟨d', hrun, hclean, hpar', hfp⟩ := run_rest c ts avail hpos k (sq + 1) (au.drop avail)
           { d.reset with size := (au.take avail).length, fragments := [au.take avail], nextSeq := sq + 1 }
           hsl h16 (by simp) (by simp only [htake]; omega) rfl
           (by simp only [List.length_drop]; omega) (by simp only [htake, List.length_drop]; omega)
           (by simp only [htake, List.length_drop, Dec.reset]; omega)
           hadts (by simpa using hausync)
-        refine ⟨d', k + 1, ?_, hclean, hpar'⟩
+        refine ⟨d', k + 1, ?_, hclean, hpar', hfp⟩
         simp only [emitFrag, runDec, runDecGen, hd, Dec.reset] at hrun ⊢
         rw [hrun]
         simp [List.replicate_succ]
@@ -673,7 +698,7 @@ theorem c03_roundtrip_grouping (e : Enc) (aus : List Bytes) (d : Dec)
   refine ⟨by rw [encode_eq], ?_⟩
   obtain ⟨d', outs, h1, ⟨hcl, hp⟩, h3, h4⟩ := run_writeAllOk decode (fun d0 => Clean d0 ∧ d0.par = e.par)
     (writeBatch e.cfg e.par) inc (parts e.cfg e.par aus) 0 e.seq d ⟨hd, hpar⟩ (fun b hb ts sq d0 hd0 => by
-      obtain ⟨d1, n, hr, hc1, hp1⟩ := run_batch e.cfg e.par hc b (parts_valid e.cfg e.par aus hf b hb) ts sq d0 hd0.1 hd0.2
+      obtain ⟨d1, n, hr, hc1, hp1, _⟩ := run_batch e.cfg e.par hc b (parts_valid e.cfg e.par aus hf b hb) ts sq d0 hd0.1 hd0.2
       exact ⟨d1, n, hr, hc1, hp1⟩)
   exact ⟨d', outs, h1, hcl, hp, h4, h3, by rw [h3, parts_flatten]⟩
 
@@ -707,7 +732,7 @@ theorem c03_fits_single (e : Enc) (aus : List Bytes) (d : Dec) (hc : ValidCfg e.
       omega)
     simpa using this
   have hbv := parts_valid e.cfg e.par aus hf aus (by rw [hparts]; simp)
-  obtain ⟨d', n, hr, hcl, _⟩ := run_batch e.cfg e.par hc aus hbv 0 e.seq d hd hpar
+  obtain ⟨d', n, hr, hcl, _, _⟩ := run_batch e.cfg e.par hc aus hbv 0 e.seq d hd hpar
   have hp : pkts e aus = writeBatch e.cfg e.par aus 0 e.seq := by
     unfold pkts; rw [hparts]; simp [writeAllOk]
   have hone : ∃ q, writeBatch e.cfg e.par aus 0 e.seq = [q] ∧ q.ts = 0 ∧ q.marker = true := by
@@ -826,6 +851,37 @@ theorem c07_marker_cleans (d : Dec) (q : Pkt) (hm : q.marker = true) :
         · exact hrm _ _ rfl rfl
       · exact ⟨rfl, rfl⟩
 
+/-- **C07 at most once**: access units are only ever returned at a packet that carries the marker,
+and at that step the fragment buffer is emptied — nothing can be returned twice. -/
+theorem c07_ok_needs_marker (d : Dec) (q : Pkt) (aus : List Bytes) (h : (decode d q).2 = .ok aus) :
+    q.marker = true ∧ (decode d q).1.size = 0 ∧ (decode d q).1.fragments = [] := by
+  cases hm : q.marker with
+  | true => exact ⟨rfl, c07_marker_cleans d q hm⟩
+  | false =>
+    exfalso
+    unfold decode at h
+    split at h
+    · simp at h
+    simp only [] at h
+    split at h
+    · simp at h
+    split at h
+    · simp at h
+    · simp only [hm, Bool.false_eq_true, ↓reduceIte, Bool.not_false] at h
+      split at h
+      · split at h
+        · split at h <;> simp at h
+        · simp at h
+      · split at h
+        · split at h
+          · simp at h
+          split at h
+          · simp at h
+          split at h
+          · simp at h
+          · simp at h
+        · simp at h
+
 /-- **C07**: once the sniffing is over in raw mode it stays so, on EVERY packet; the bit lengths
 never change. -/
 theorem c07_synced_stays (d : Dec) (q : Pkt) (hs : Synced d) :
@@ -874,6 +930,41 @@ theorem synced_run (d : Dec) (ps : List Pkt) (hs : Synced d) :
     simp only [runDec, runDecGen]
     exact ⟨h3, by rw [← h2]; exact h4⟩
 
+/-- **C07**: a clean decoder — in particular a new one — is `Synced` for ever once it has decoded
+ONE intact valid group: the sniffing sees a raw AU and settles on raw mode.  (The only way into
+the sticky ADTS mode with a raw stream is damage before the very first returned AU.) -/
+theorem c07_first_group_syncs (e : Enc) (aus : List Bytes) (d : Dec) (hc : ValidCfg e.cfg e.par)
+    (hf : ValidFrame e.par aus) (hd : Clean d) (hpar : d.par = e.par) :
+    Synced (runDec d (pkts e aus)).1 ∧ Clean (runDec d (pkts e aus)).1 := by
+  obtain ⟨d', outs, h1, ⟨hcl, hfp⟩, _, _⟩ := run_writeAllOk decode
+    (fun d0 => (Clean d0 ∧ d0.par = e.par) ∧ (d0 = d ∨ d0.firstAUParsed = true))
+    (writeBatch e.cfg e.par) inc (parts e.cfg e.par aus) 0 e.seq d ⟨⟨hd, hpar⟩, Or.inl rfl⟩
+    (fun b hb ts sq d0 hd0 => by
+      obtain ⟨d1, n, hr, hc1, hp1, hf1⟩ := run_batch e.cfg e.par hc b (parts_valid e.cfg e.par aus hf b hb)
+        ts sq d0 hd0.1.1 hd0.1.2
+      exact ⟨d1, n, hr, ⟨hc1, hp1⟩, Or.inr hf1⟩)
+  have hrun : runDec d (pkts e aus) = (d', outs) := h1
+  rw [hrun]
+  refine ⟨⟨?_, hcl.1.2.2⟩, hcl.1⟩
+  rcases hfp with h | h
+  · -- at least one batch was decoded, so the flag was set
+    subst h
+    have hne := batches_ne_nil (ops e.cfg e.par).fits aus []
+    cases hp : parts e.cfg e.par aus with
+    | nil => exact absurd hp hne
+    | cons b bs =>
+      obtain ⟨d1, n, hr, hc1, hp1, hf1⟩ := run_batch e.cfg e.par hc b
+        (parts_valid e.cfg e.par aus hf b (by rw [hp]; simp)) 0 e.seq d' hd hpar
+      have hs1 : Synced d1 := ⟨hf1, hc1.2.2⟩
+      unfold pkts at hrun
+      rw [hp, writeAllOk, runDec, runDecGen_append] at hrun
+      rw [show runDecGen decode = runDec from rfl, hr] at hrun
+      have := congrArg Prod.fst hrun
+      simp only at this
+      rw [← this]
+      exact (synced_run d1 _ hs1).1.1
+  · exact h
+
 /-- **C07 flush**: from ANY state whose sniffing is over (whatever fragments it holds, whatever
 sequence number it expects), the packets of one intact valid group, in order, leave the decoder
 clean: the group's last packet carries the marker. -/
@@ -907,6 +998,12 @@ theorem c07_resync (d : Dec) (e : Enc) (f g : List Bytes) (hc : ValidCfg e.cfg e
     (by rw [hc1, hc2]; exact hc) (by rw [hc2]; exact hg) hcl (by rw [hp, hc2]; exact hpar)
   exact ⟨d', outs, h1, h2, h3, h5⟩
 
+/-! ## facts the model depends on (regenerated from /repo on every run) -/
+
+/-- the decoder checks every AU size read from an AU header against `MaxAccessUnitSize`
+(fix 0ff2240 is in the tree); the fragment header takes 2 bytes + the AU header -/
+example : CodecAudio.mpeg4audioAuSizeChecked = true ∧ CodecAudio.mpeg4audioFragHeaderBytes = 2 := ⟨rfl, rfl⟩
+
 /-! ## non-vacuity: the hypotheses are satisfiable by non-trivial values -/
 
 /-- AAC-hbr (13/3/3) at limit 20 across a sequence-number wrap -/
@@ -928,6 +1025,6 @@ example : Fits exEnc.cfg exEnc.par [[1, 2, 3], [4, 5, 6, 7]] := by unfold Fits; 
 /-- a dirty state (mid-AU, wrong expected sequence number) satisfies the invariant and `Synced` -/
 example : Inv { par := ⟨13, 3, 3⟩, firstAUParsed := true, fragments := [[1, 2], [3]], size := 3, nextSeq := 77 } ∧
     Synced { par := ⟨13, 3, 3⟩, firstAUParsed := true, fragments := [[1, 2], [3]], size := 3, nextSeq := 77 } :=
-  ⟨⟨by decide, by decide, by decide⟩, by decide⟩
+  ⟨⟨by decide, by decide, by decide, by decide⟩, by decide⟩
 
 end Rtsp.Codec.Mpeg4Audio
